@@ -10,7 +10,8 @@ let n_of_hexs (s : string) : BinNums.coq_N = n_of_zt (Z.of_string_base 16 s)
 let cfg_of (s : string) : Writer.cfg =
   match split ',' s with
   | [c; f; p] ->
-    let ci = int_of_string c and fi = int_of_string f in
+    (* `d` = the builder's setter is not called: TextWriterBuilder::default() = space / 2 *)
+    let ci = if c = "d" then 32 else int_of_string c and fi = if f = "d" then 2 else int_of_string f in
     if ci < 0 || ci > 255 || fi < 0 || fi > 255 then raise Bad;
     { Writer.indent_char = n_of_int ci; Writer.indent_factor = n_of_int fi; Writer.dbg = (p = "d") }
   | _ -> raise Bad
@@ -81,6 +82,8 @@ let call_of (s : string) : Writer.call =
   | ["f32p"; bits; prec; text] -> Writer.CF32p (reg_f false bits prec text, n_of_string prec)
   | ["f64p"; bits; prec; text] -> Writer.CF64p (reg_f true bits prec text, n_of_string prec)
   | ["date"; which; y; m; d; h] -> Writer.CDate ((which = "u"), date_of which y m d h)
+  (* write_date(x.iso_8601()) = write!(self, "{}", formatter): preamble, the formatted text, epilogue *)
+  | ["dateiso"; which; y; m; d; h] -> Writer.CFmt (Date.iso_fmt (date_of which y m d h))
   | "rgb" :: r :: g :: b :: a -> Writer.CRgb (u32 r, u32 g, u32 b, alpha a)
   | ["m"] -> Writer.CMixed
   | ["fmt"; h] -> Writer.CFmt (bytes_of_hex h)
@@ -89,6 +92,9 @@ let call_of (s : string) : Writer.call =
 
 let calls_of (s : string) : Writer.call list =
   Hashtbl.reset ftab;
+  if s = "-" || s = "" then [] else Stdlib.List.map call_of (split ';' s)
+
+let calls_of_keep (s : string) : Writer.call list =      (* no reset of the float table: sessions *)
   if s = "-" || s = "" then [] else Stdlib.List.map call_of (split ';' s)
 
 let queries (w : Writer.wr) : string =
@@ -113,6 +119,48 @@ let () =
       | Writer.WOk (w, out) -> "ok " ^ hex_of_bytes out ^ " " ^ queries w
       | Writer.WErr (w, out, _) -> "ERR " ^ hex_of_bytes out ^ " " ^ queries w
       | Writer.WCrash (_, _) -> crash_tag) | _ -> "BADCASE");
+  (* wave 4: one writer state threaded through calls, write_tape traversals and raw inner() writes *)
+  register "writer.session" (function cfg :: segs -> guard (fun () ->
+      let c = cfg_of cfg in
+      Hashtbl.reset ftab;
+      let cut s ch = match Stdlib.String.index_opt s ch with
+        | Some i -> (Stdlib.String.sub s 0 i, Stdlib.String.sub s (i + 1) (Stdlib.String.length s - i - 1))
+        | None -> raise Bad in
+      let buf = Stdlib.Buffer.create 256 in
+      let log = ref [] in
+      let w = ref Writer.wr_init in
+      let crashed = ref false in
+      Stdlib.List.iter (fun seg ->
+          if not !crashed then begin
+            let (k, body) = cut seg '=' in
+            match k with
+            | "c" ->
+              let cs = calls_of_keep body in
+              (match Writer.run_from fdisp c !w cs with
+               | Bytes.Ok (out, l) ->
+                 Stdlib.Buffer.add_string buf (let h = hex_of_bytes out in if h = "-" then "" else h);
+                 Stdlib.List.iter (fun (_, w') -> w := w') l;
+                 let ls = Stdlib.List.map (fun (e, w') -> (if e then "E" else "") ^ queries w') l in
+                 log := (if ls = [] then "-" else Stdlib.String.concat "," ls) :: !log
+               | _ -> crashed := true)
+            | "t" ->
+              let (_, tape) = cut body '|' in
+              let t = Ttglue.tape_of_string tape in
+              (match Writer.wt (Writer.tape_fuel t) c t (Writer.JCore (nat_of_int 0, nat_of_int (Stdlib.List.length t))) !w with
+               | Writer.WOk (w', out) ->
+                 Stdlib.Buffer.add_string buf (let h = hex_of_bytes out in if h = "-" then "" else h);
+                 w := w'; log := ("T" ^ queries w') :: !log
+               | Writer.WErr (w', out, _) ->
+                 Stdlib.Buffer.add_string buf (let h = hex_of_bytes out in if h = "-" then "" else h);
+                 w := w'; log := ("TE" ^ queries w') :: !log
+               | Writer.WCrash (_, _) -> crashed := true)
+            | "i" -> Stdlib.Buffer.add_string buf (if body = "-" then "" else body); log := "I" :: !log
+            | _ -> raise Bad
+          end) segs;
+      if !crashed then crash_tag
+      else
+        let h = Stdlib.Buffer.contents buf in
+        (if h = "" then "-" else h) ^ " " ^ (if !log = [] then "-" else Stdlib.String.concat "/" (Stdlib.List.rev !log))) | _ -> "BADCASE");
   register "writer.escape" (function [h] -> hex_of_bytes (Writer.escape (bytes_of_hex h)) | _ -> "BADCASE");
   (* buffer reuse is unobservable in the model: the scratch Vec is cleared before use *)
   register "writer.escape_reuse" (function [_; h] -> hex_of_bytes (Writer.escape (bytes_of_hex h)) | _ -> "BADCASE")
